@@ -97,7 +97,9 @@ def execute_lemma(n):
         old_tid = tm.tid
         payload = E.bytes('payload', 0, 250)
         uid, fc = E.int('uid', 0, 256), E.int('fc', 1, 128)
-        req = E.obj('pymodbus.pdu.ModbusRequest', transaction_id=0, protocol_id=0, unit_id=uid, skip_encode=False, check=0, function_code=fc,
+        # the request object may have been used before (a polling loop re-submits it) or carry an id its builder chose: whatever it holds,
+        # execute gives it the next id of this connection
+        req = E.obj('pymodbus.pdu.ModbusRequest', transaction_id=E.int('request_carries_tid', 0, 65536), protocol_id=0, unit_id=uid, skip_encode=False, check=0, function_code=fc,
                     encode=E.callback(lambda: payload, 'encode'))
         E.I.cfg.ext.update(ext_models(E, w)) if E.mode == 'symbolic' else None
         d = E.method(p, 'execute', req)
